@@ -1,5 +1,6 @@
-// C12 facts: constants of the extensible file + three behavioural flags of the current tree
-// (which variant of _exfile_copy / iw_exfile_szpolicy_mul the source implements; see notes/exf.md).
+// C12 facts: constants of the extensible file and of iwfile.h + behavioural flags of the current tree
+// (which variant of _exfile_copy / iw_exfile_szpolicy_mul / iwp_copy_bytes / _exfile_acquire_mmap / iwfs_exfile_open the
+// source implements; see notes/exf.md).
 #include "iwcfg.h"
 #include "iwexfile.h"
 #include "iwp.h"
@@ -86,6 +87,57 @@ static int sc_copy_src(void) {
   return ok;
 }
 
+// forward-overlapping copy through the file (no window): carried out, or refused with IW_ERROR_OVERFLOW?
+static int sc_copy_fwd(void) {
+  IWFS_EXT f;
+  size_t ps = iwp_alloc_unit(), sp;
+  if (xopen(&f, (off_t) (3 * ps), 0, 0)) return 0;
+  unsigned char *pat = malloc(2 * ps), *got = malloc(2 * ps);
+  for (size_t i = 0; i < 2 * ps; ++i) pat[i] = (unsigned char) (i * 7 % 251 + 1);
+  if (f.write(&f, 0, pat, 2 * ps, &sp)) return 0;
+  if (f.copy(&f, 0, 2 * ps, (off_t) ps)) return 0;
+  if (f.read(&f, (off_t) ps, got, 2 * ps, &sp) || sp != 2 * ps) return 0;
+  int ok = !memcmp(pat, got, 2 * ps);
+  f.close(&f);
+  return ok;
+}
+
+// acquire_mmap of an offset without a window: is the read lock given back? (if not, the truncate below never returns
+// and the alarm ends the child)
+static int sc_acq_unlocks(void) {
+  IWFS_EXT f;
+  IWFS_EXT_OPTS o;
+  memset(&o, 0, sizeof(o));
+  o.file.path = path;
+  o.file.omode = IWFS_OWRITE | IWFS_OCREATE | IWFS_OTRUNC;
+  o.file.lock_mode = IWP_NOLOCK;
+  o.initial_size = (off_t) iwp_alloc_unit();
+  o.use_locks = true;
+  if (iwfs_exfile_open(&f, &o)) return 0;
+  uint8_t *mm = 0;
+  size_t sp = 0;
+  if (!f.acquire_mmap(&f, (off_t) (2 * iwp_alloc_unit()), &mm, &sp)) return 0;
+  alarm(2);
+  iwrc rc = f.truncate(&f, (off_t) (2 * iwp_alloc_unit()));
+  alarm(0);
+  f.close(&f);
+  return !rc;
+}
+
+// a maximum offset below one page: rejected by the open, or silently "unlimited"?
+static int sc_small_maxoff(void) {
+  IWFS_EXT f;
+  IWFS_EXT_OPTS o;
+  memset(&o, 0, sizeof(o));
+  o.file.path = path;
+  o.file.omode = IWFS_OWRITE | IWFS_OCREATE | IWFS_OTRUNC;
+  o.file.lock_mode = IWP_NOLOCK;
+  o.maxoff = 100;
+  iwrc rc = iwfs_exfile_open(&f, &o);
+  if (!rc) f.close(&f);
+  return rc != 0;
+}
+
 static void flag(const char *name, int v) {
   printf("Definition %s : bool := %s.\n", name, v ? "true" : "false");
 }
@@ -98,6 +150,28 @@ int main(void) {
   ZV("EXF_E_NOT_ALIGNED", IW_ERROR_NOT_ALIGNED);
   ZV("EXF_E_OVERFLOW", IW_ERROR_OVERFLOW);
   ZV("EXF_E_IO", IW_ERROR_IO_ERRNO);
+  ZV("EXF_E_ERRNO", IW_ERROR_ERRNO);
+  ZV("EXF_E_READONLY", IW_ERROR_READONLY);
+  ZV("EXF_E_INVARGS", IW_ERROR_INVALID_ARGS);
+  ZV("EXF_E_NOT_EXISTS", IW_ERROR_NOT_EXISTS);
+  ZV("EXF_OREAD", IWFS_OREAD);
+  ZV("EXF_OWRITE", IWFS_OWRITE);
+  ZV("EXF_OCREATE", IWFS_OCREATE);
+  ZV("EXF_OTRUNC", IWFS_OTRUNC);
+  ZV("EXF_OUNLINK", IWFS_OUNLINK);
+  ZV("EXF_OTMP", IWFS_OTMP);
+  ZV("EXF_OPEN_FAIL", IWFS_OPEN_FAIL);
+  ZV("EXF_OPEN_NEW", IWFS_OPEN_NEW);
+  ZV("EXF_OPEN_EXISTING", IWFS_OPEN_EXISTING);
+  ZV("EXF_DEFAULT_OMODE", IWFS_DEFAULT_OMODE);
+  ZV("EXF_DEFAULT_LOCKMODE", IWFS_DEFAULT_LOCKMODE);
+  ZV("EXF_DEFAULT_FILEMODE", IWFS_DEFAULT_FILEMODE);
+  ZV("EXF_NOLOCK", IWP_NOLOCK);
+  ZV("EXF_RLOCK", IWP_RLOCK);
+  ZV("EXF_WLOCK", IWP_WLOCK);
+  ZV("EXF_NBLOCK", IWP_NBLOCK);
+  ZV("EXF_SIZEOF_OMODE", sizeof(iwfs_omode));
+  ZV("EXF_SIZEOF_LOCKMODE", sizeof(iwp_lockmode));
   ZV("EXF_E_MAXOFF", IWFS_ERROR_MAXOFF);
   ZV("EXF_E_POLFAIL", IWFS_ERROR_RESIZE_POLICY_FAIL);
   ZV("EXF_E_OVERLAP", IWFS_ERROR_MMAP_OVERLAP);
@@ -111,9 +185,13 @@ int main(void) {
     iwlog_set_logfn(0, &lo);
   }
   int m = child_ok(sc_mul), e = child_ok(sc_copy_ensures), s = child_ok(sc_copy_src);
+  int fw = child_ok(sc_copy_fwd), au = child_ok(sc_acq_unlocks), sm = child_ok(sc_small_maxoff);
   unlink(path);
   flag("EXF_MUL_GE_NSIZE", m);
   flag("EXF_COPY_ENSURES", e);
   flag("EXF_COPY_SRC_CHECKED", s);
+  flag("EXF_COPY_FWD_OK", fw);
+  flag("EXF_ACQ_FAIL_UNLOCKS", au);
+  flag("EXF_SMALL_MAXOFF_REJECTED", sm);
   return 0;
 }
